@@ -238,6 +238,8 @@ def finish(ctx: Context, started: float, seed: int, *, extra_coverage: Optional[
         'checker_cmd': f"/venv/bin/python -m emsverif check {ctx.prop}",
         'trusted_base': ctx.assumptions,
         'notes': ctx.notes,
+        'normal_forms_applied': dict(sorted(getattr(ctx.p, 'normal_forms', {}).items())),
+        'helpers_inlined': list(getattr(ctx.p, 'inlined', [])),
     }
     if extra_coverage:
         coverage.update(extra_coverage)
